@@ -231,6 +231,9 @@ def _build_array_arg(node, value, forms, env):
                 sl = tuple(slice(0, 2 * s, 2) for s in shape)
                 big[sl] = base
                 return big[sl]
+            if f == 1 and base.dtype.itemsize > 1 and forms.next(3) == 0:
+                env.forms_used.add("ndarray_byteswapped")
+                return base.astype(base.dtype.newbyteorder())  # same values, non-native byte order
             if f == 4:
                 # other dtype that converts exactly
                 for alt in ("float64", "int64", "int16", "uint8"):
@@ -240,8 +243,18 @@ def _build_array_arg(node, value, forms, env):
             env.forms_used.add("ndarray_C")
             return base
         if f == 5:
-            env.forms_used.add("array_xobject")
             base = np.array(flat, dtype=dt).reshape(shape)
+            nd_ = len(shape)
+            if nd_ >= 2 and len(flat) and forms.next(2) == 1:
+                # an xobject array of ANOTHER class: same item type and shape, another axis order
+                import xobjects as xo
+
+                oo = list(reversed(spec["order"])) if list(reversed(spec["order"])) != list(spec["order"]) else list(spec["order"][1:]) + list(spec["order"][:1])
+                shp = tuple(slice(d, o) for d, o in zip(spec["shape"], oo))
+                twin = getattr(xo, spec["item"]["t"])[shp]
+                env.forms_used.add("array_xobject_other_axis_order")
+                return twin(base, _buffer=env.other_buffer())
+            env.forms_used.add("array_xobject")
             return node.cls(base, _buffer=env.other_buffer())
         env.forms_used.add("array_list")
         return tg.to_nested(value)
